@@ -307,13 +307,173 @@ class LocalHarness:
         return out
 
 
+
+class HttpHarness:
+    """the HTTP client backend: real SyncServer::{new, construct_endpoint_url, add_version, get_child_version, add_snapshot,
+    get_snapshot}, get_uuid_header, get_snapshot_urgency, get_content_type, sealed_from_resp, the reqwest::Error conversion,
+    Cryptor seal/unseal (ideal primitives), against a protocol-conformant sync server written from docs/src/http.md"""
+
+    def __init__(self, ncalls, nclients, name):
+        self.I = get_interp(variant='full')
+        self.ncalls, self.nclients, self.name = ncalls, nclients, name
+
+    def run_path(self, ctx):
+        from .common import World
+        from .httpworld import HttpWorld
+        c, I = ctx, self.I
+        World(I, ctx)
+        w = HttpWorld(I, ctx)
+        servers = [w.new_client() for _ in range(self.nclients)]
+        srvm = w.server
+        chain, snaps, log = [], [], []
+
+        def fresh_parent():
+            p = c.fresh_int('parent', 0, 2 ** 128 - 1)
+            for k in range(w.nver + 1, w.nver + self.ncalls + 3):
+                c.assume(p != 7000 + k)
+            return p
+
+        def wit(m):
+            return {'backend': 'http', 'calls': show(log, m), 'requests': [(q[0], q[1], show(q[2], m)) for q in srvm.requests]}
+
+        def conformant():
+            if srvm.problems:
+                c.prove(False, 'a request does not follow docs/src/http.md (method, endpoint, content type or X-Client-Id)', wit,
+                        {'class': 'request-format', 'backend': 'http', 'problem': repr(srvm.problems[0])[:160]})
+                return False
+            return True
+        for step in range(self.ncalls):
+            srv = servers[c.choose(self.nclients, 'client') if step else 0]
+            kind = ['add_version', 'get_child_version', 'add_snapshot', 'get_snapshot'][c.choose(4, 'call')]
+            latest = chain[-1][1] if chain else 0
+            if kind == 'add_version':
+                parent = fresh_parent()
+                payload = PyVec([c.fresh_int('b', 0, 255) for _ in range(step % 3)])
+                urg = c.choose(3, 'urgency')
+                srvm.urgency = [None, 'urgency=low', 'urgency=high'][urg]
+                r = w.run(w.f_add_version(srv, parent, clone_val(payload)))
+                srvm.urgency = None
+                log.append(('add_version', parent, payload))
+                if not conformant():
+                    return None
+                if r.variant != 0:
+                    c.prove(False, 'add_version returned Err', wit, {'class': 'err', 'backend': 'http', 'err': repr(r)[:120]})
+                    return None
+                res, gotu = r.fields[0].fields
+                accept = (not chain) or c.branch(val_eq(parent, latest))
+                if accept:
+                    if res.variant != 0 or not c.prove(val_eq(res.fields[0], srvm.latest()), 'the accepted version id is not the one the server named', wit, {'class': 'accepted-id', 'backend': 'http'}):
+                        if res.variant != 0:
+                            c.prove(False, 'a version on top of the latest version was rejected', wit, {'class': 'reject-valid', 'backend': 'http'})
+                        return None
+                    if gotu.variant != urg:
+                        c.prove(False, 'the snapshot request of the server was not passed on', wit, {'class': 'urgency', 'backend': 'http', 'sent': urg, 'got': gotu.variant})
+                        return None
+                    chain.append((parent, res.fields[0], payload))
+                    c.cover('http: version accepted')
+                    if urg:
+                        c.cover('http: snapshot urgency passed on')
+                else:
+                    ok = res.variant == 1 and val_eq(res.fields[0], latest)
+                    if res.variant != 1 or not c.prove(ok, 'rejection does not name the latest version', wit, {'class': 'reject-wrong-latest', 'backend': 'http'}):
+                        if res.variant != 1:
+                            c.prove(False, 'a version whose parent is not the latest was accepted', wit, {'class': 'accept-invalid', 'backend': 'http'})
+                        return None
+                    c.cover('http: version rejected naming latest')
+            elif kind == 'get_child_version':
+                parent = fresh_parent()
+                r = w.run(w.f_get_child_version(srv, parent))
+                log.append(('get_child_version', parent))
+                if not conformant():
+                    return None
+                if r.variant != 0:
+                    c.prove(False, 'get_child_version returned Err', wit, {'class': 'err', 'backend': 'http', 'err': repr(r)[:160]})
+                    return None
+                g = r.fields[0]
+                exp = None
+                for p, v, pl in chain:
+                    if c.branch(val_eq(p, parent)):
+                        exp = (p, v, pl)
+                        break
+                if exp is None:
+                    if g.variant != 0:
+                        c.prove(False, 'a child was returned for a parent that has none', wit, {'class': 'phantom-child', 'backend': 'http'})
+                        return None
+                    c.cover('http: no such version')
+                else:
+                    if g.variant != 1:
+                        c.prove(False, 'an accepted version is not returned as the child of its parent', wit, {'class': 'missing-child', 'backend': 'http'})
+                        return None
+                    ok = z_all([val_eq(g.fields[0], exp[1]), val_eq(g.fields[1], exp[0]), val_eq(g.fields[2], exp[2])])
+                    if not c.prove(ok, 'child version differs from what was accepted (id / parent / bytes)', wit, {'class': 'child-differs', 'backend': 'http'}):
+                        return None
+                    c.cover('http: child returned byte for byte')
+            elif kind == 'add_snapshot':
+                if not chain:
+                    raise PathAbort()
+                i = c.choose(len(chain), 'snapshot-version')
+                payload = PyVec([c.fresh_int('s', 0, 255) for _ in range((step + 1) % 3)])
+                r = w.run(w.f_add_snapshot(srv, chain[i][1], clone_val(payload)))
+                log.append(('add_snapshot', i, payload))
+                if not conformant():
+                    return None
+                if r.variant != 0:
+                    c.prove(False, 'add_snapshot returned Err', wit, {'class': 'err', 'backend': 'http'})
+                    return None
+                snaps = [(chain[i][1], payload)]
+            else:
+                r = w.run(w.f_get_snapshot(srv))
+                log.append(('get_snapshot',))
+                if not conformant():
+                    return None
+                if r.variant != 0:
+                    c.prove(False, 'get_snapshot returned Err', wit, {'class': 'err', 'backend': 'http', 'err': repr(r)[:160]})
+                    return None
+                o = r.fields[0]
+                if not snaps:
+                    if o.variant != 0:
+                        c.prove(False, 'a snapshot was returned although none was stored', wit, {'class': 'phantom-snapshot', 'backend': 'http'})
+                        return None
+                    c.cover('http: no snapshot')
+                else:
+                    if o.variant != 1:
+                        c.prove(False, 'a stored snapshot was not returned', wit, {'class': 'missing-snapshot', 'backend': 'http'})
+                        return None
+                    ver, pl = o.fields[0].fields
+                    ok = z_and(val_eq(ver, snaps[0][0]), val_eq(pl, snaps[0][1]))
+                    if not c.prove(ok, 'snapshot not returned intact with the version it was stored for', wit, {'class': 'snapshot-differs', 'backend': 'http'}):
+                        return None
+                    c.cover('http: snapshot returned intact')
+        # the whole chain read back through a fresh client
+        srv = w.new_client()
+        parent = chain[0][0] if chain else 0
+        for p, v, pl in chain:
+            r = w.run(w.f_get_child_version(srv, parent))
+            g = r.fields[0] if r.variant == 0 else None
+            if g is None or g.variant != 1:
+                c.prove(False, 'chain cannot be walked from the first version', wit, {'class': 'walk', 'backend': 'http'})
+                return None
+            ok = z_all([val_eq(g.fields[0], v), val_eq(g.fields[2], pl)])
+            if not c.prove(ok, 'chain read back differs from the accepted versions', wit, {'class': 'walk-differs', 'backend': 'http'}):
+                return None
+            parent = v
+        out = {'backend': 'http', 'calls': [x[0] for x in log], 'chain': len(chain)}
+        if c.want_sample:
+            out['_encoded'] = sorted(I.encoded)
+            out['_modelled'] = sorted(I.modelled)
+        return out
+
 def replay_scenario(v):
+    if v['witness'].get('backend') == 'http':
+        return {'kind': 'noop'}
     if v['witness'].get('backend') == 'local':
         return v['witness']['scenario']
     return _cw.replay_scenario(v)
 
 
 def replay_judge(scn, out, v):
+    if v['witness'].get('backend') == 'http':
+        return True, {'note': 'judged by the engine: the replay binary has no HTTP server'}
     if v['witness'].get('backend') == 'local':
         # confirmed when the compiled LocalServer over the real SQLite returns what the interpreter predicted for the
         # calls made so far (the oracle was evaluated on those values); the final walk is not part of a counterexample
@@ -333,22 +493,28 @@ def validate_samples(s, out):
 
 def required_covers(tier):
     return ['version accepted', 'version rejected naming latest', 'no such version', 'child returned byte for byte', 'snapshot returned intact',
-            'local: version accepted', 'local: version rejected naming latest', 'local: no such version', 'local: child returned byte for byte']
+            'local: version accepted', 'local: version rejected naming latest', 'local: no such version', 'local: child returned byte for byte',
+            'http: version accepted', 'http: version rejected naming latest', 'http: no such version', 'http: child returned byte for byte',
+            'http: snapshot returned intact', 'http: no snapshot', 'http: snapshot urgency passed on']
 
 
 def configs(tier):
     if tier == 'quick':
         return [dict(name='calls3x2', factory=lambda: Harness(3, 2, 'q'),
                      bounds='every sequence of 3 calls (add_version / get_child_version / add_snapshot / get_snapshot) from 2 client handles used one after the other; parents: an arbitrary symbolic uuid (latest / older / unknown decided by z3); payloads of 0-2 symbolic bytes (length fixed per position); version ids symbolic and distinct; "cleanup now?" a symbolic random byte; then the chain is walked through a fresh handle'),
+                dict(name='http-calls3x2', factory=lambda: HttpHarness(3, 2, 'hq'), mir='full',
+                     bounds='HTTP client: every sequence of 3 calls (add_version / get_child_version / add_snapshot / get_snapshot) from 2 SyncServer values with one client id against a conformant sync server (docs/src/http.md); parents arbitrary symbolic uuids; payloads 0-2 symbolic bytes (empty included); snapshot request none/low/high per accepted version; then the chain is walked through a fresh client'),
                 dict(name='local-calls3x2', factory=lambda: LocalHarness(3, 2, 'lq'), mir='full',
                      bounds='local on-disk server: every sequence of 3 calls (add_version / get_child_version / get_snapshot) from 2 handles on one directory used one after the other; parents arbitrary symbolic uuids; payloads 0-2 symbolic bytes; then the chain is walked through a fresh handle')]
     return [dict(name='calls4x2', factory=lambda: Harness(4, 2, 't'), bounds='as quick with 4 calls', time_limit_s=3300),
             dict(name='calls3x2-page1', factory=lambda: Harness(3, 2, 'p1', page_size=1), bounds='3 calls, list page size 1', time_limit_s=3300),
+            dict(name='http-calls4x2', factory=lambda: HttpHarness(4, 2, 'ht'), mir='full', bounds='HTTP client, 4 calls from 2 clients', time_limit_s=3300),
             dict(name='local-calls5x2', factory=lambda: LocalHarness(5, 2, 'lt'), mir='full', bounds='local on-disk server, 5 calls from 2 handles', time_limit_s=3300)]
 
 
 ASSUMPTIONS = [
-    'claimed for the object-store backend and the local on-disk backend; git (sub-processes) and HTTP (reqwest, remote server) backends are outside',
+    'claimed for the object-store backend, the local on-disk backend and the HTTP client; the git backend (sub-processes) is outside',
+    'HTTP client: the crate-side request construction and response interpretation are executed; reqwest/url are modelled at their call boundary (a request is a record of method, url, headers, body; a response is status, headers, body; header names case-insensitive; 4xx/5xx become errors in error_for_status); the server is a conformant implementation of docs/src/http.md written in the harness; transfer encodings, TLS, redirects and transport failures are outside; HTTP counterexamples are judged by the engine (no in-process HTTP server in the replay binary), they are reported with the request log',
     'local backend: the Rust code of LocalServer and StoredUuid is executed; the SQL engine behind rusqlite is a model (tables in insertion order, PRIMARY KEY uniqueness, transactions as private copies committed atomically; only the statement forms the crate uses are understood, anything else is inconclusive); the replay runs the same calls on the compiled LocalServer over the real SQLite (ServerConfig::Local) and compares every result',
     'local backend: add_snapshot is never called (the local server never asks for a snapshot; its add_snapshot is unreachable!() by design), get_snapshot must answer "none"; handles are used one after the other (no concurrent transactions: SQLite locking is outside)',
     'object store = model of the Service trait contract (get/put/del/list by prefix/compare-and-swap); ring primitives idealised (see C13); Uuid::new_v4 returns fresh distinct values with symbolic order',
